@@ -16,7 +16,6 @@ import (
 	"fmt"
 	"math"
 	"os"
-	"runtime/pprof"
 	"sort"
 	"strings"
 	"sync"
@@ -244,14 +243,33 @@ func smallExtras(contents map[string]string) []string {
 // ---------------------------------------------------------------------------------------------------
 // remotes: counting wrapper + wire adapters with a real protobuf round trip
 
+var errTooManyRounds = errors.New("c07: more Ranges rounds than ceil(64/log2(divideFactor))+2, diff cut off")
+
 type countingRemote struct {
 	inner  ldiff.Remote
 	rounds int
+	limit  int        // 0 = unlimited
 	trace  ldiff.Diff // replay only: the local index; every round is printed with both sides' answers
+	probe  ldiff.Diff // classification of a violating run: the local index; sig is set when a round held a range that
+	sig    bool       // the local side answered without hash but with elements and the remote side without hash and empty
 }
 
 func (c *countingRemote) Ranges(ctx context.Context, ranges []ldiff.Range, resBuf []ldiff.RangeResult) ([]ldiff.RangeResult, error) {
 	c.rounds++
+	if c.limit > 0 && c.rounds > c.limit {
+		// the property demands termination: a diff still asking after the bound is cut off and reported
+		return nil, errTooManyRounds
+	}
+	if c.probe != nil {
+		res, err := c.inner.Ranges(ctx, ranges, resBuf)
+		mine, _ := c.probe.Ranges(ctx, ranges, nil)
+		for i := range ranges {
+			if i < len(mine) && i < len(res) && len(mine[i].Hash) == 0 && mine[i].Count > 0 && len(res[i].Hash) == 0 && res[i].Count == 0 {
+				c.sig = true
+			}
+		}
+		return res, err
+	}
 	if c.trace != nil {
 		res, err := c.inner.Ranges(ctx, ranges, resBuf)
 		mine, _ := c.trace.Ranges(ctx, ranges, nil)
@@ -359,6 +377,7 @@ type link struct {
 	hsRd ldiff.Remote
 	kvRd ldiff.Remote
 	cr   countingRemote
+	lim  int // rounds after which a diff is cut off (0 = never)
 }
 
 func newLink() *link {
@@ -384,7 +403,28 @@ func (l *link) remote(tr int, d ldiff.Diff, dm *headsync.DiffManager) *countingR
 		l.cr.inner = l.kvRd
 	}
 	l.cr.rounds = 0
+	l.cr.limit = l.lim
 	return &l.cr
+}
+
+// hashlessSkip re-runs a violating diff with a probe and reports whether some round compared a range for which the
+// local index holds no division (answered with its elements and WITHOUT hash) with an empty remote range (no hash
+// either). It only refines the key of a "removed-missing" violation, it is no oracle.
+const hashlessKey = "/hashless-local-range-vs-empty-remote-range"
+
+func hashlessSkip(tr int, local, remote ldiff.Diff, variant string) (sig bool) {
+	lk := newLink()
+	lk.lim = 200
+	rem := lk.remote(tr, remote, nil)
+	rem.probe = local
+	vk.Recover(func() {
+		if variant == "Diff" {
+			_, _, _, _ = local.Diff(context.Background(), rem)
+		} else {
+			_, _, _, _, _ = local.(ldiff.CompareDiff).CompareDiff(context.Background(), rem)
+		}
+	})
+	return rem.sig
 }
 
 // ---------------------------------------------------------------------------------------------------
@@ -479,21 +519,24 @@ func inSubset(l, r, stride int) bool {
 	return (l+7*r)%stride == 0
 }
 
-type stats struct {
-	maxRounds   int
-	maxCase     *smallCase
-	allFourCase *smallCase
+type wstats struct {
+	maxRounds int
+	maxRank   [6]int
+	maxCase   *smallCase
+	fourRank  [6]int
+	fourCase  *smallCase
 }
 
+type stats = wstats
+
 type runner struct {
-	c        *vk.Ctx
-	params   []param
-	mu       sync.Mutex
-	maxByDf  map[string]int
-	st       stats
-	allFour  atomic.Bool
-	nViol    atomic.Int64
-	viol     map[string]*vrec
+	c           *vk.Ctx
+	params      []param
+	mu          sync.Mutex
+	maxByDf     map[string]int
+	st          stats
+	nViol       atomic.Int64
+	viol        map[string]*vrec
 	violByParam map[string]int64
 }
 
@@ -566,24 +609,20 @@ func (r *runner) flushViolations() {
 	r.c.Count("violating_runs", r.nViol.Load())
 }
 
-func (r *runner) noteRounds(p param, rounds int, mk func() *smallCase) {
+// mergeStats folds one worker's observations in; ties are broken by enumeration rank so that the sampled cases
+// are the same in every run.
+func (r *runner) mergeStats(p param, w *wstats) {
 	r.mu.Lock()
 	defer r.mu.Unlock()
 	k := fmt.Sprintf("df=%d", p.effDf())
-	if rounds > r.maxByDf[k] {
-		r.maxByDf[k] = rounds
+	if w.maxRounds > r.maxByDf[k] {
+		r.maxByDf[k] = w.maxRounds
 	}
-	if rounds > r.st.maxRounds {
-		r.st.maxRounds = rounds
-		r.st.maxCase = mk()
+	if w.maxCase != nil && (w.maxRounds > r.st.maxRounds || w.maxRounds == r.st.maxRounds && rankLess(w.maxRank, r.st.maxRank)) {
+		r.st.maxRounds, r.st.maxRank, r.st.maxCase = w.maxRounds, w.maxRank, w.maxCase
 	}
-}
-
-func (r *runner) noteAllFour(mk func() *smallCase) {
-	r.mu.Lock()
-	defer r.mu.Unlock()
-	if r.st.allFourCase == nil {
-		r.st.allFourCase = mk()
+	if w.fourCase != nil && (r.st.fourCase == nil || rankLess(w.fourRank, r.st.fourRank)) {
+		r.st.fourRank, r.st.fourCase = w.fourRank, w.fourCase
 	}
 }
 
@@ -608,7 +647,7 @@ func TestCheck(t *testing.T) {
 			if tier == "quick" {
 				return 80 * time.Second
 			}
-			return 25 * time.Minute
+			return 27 * time.Minute
 		},
 	}, body)
 }
@@ -618,12 +657,20 @@ func gridParams(c *vk.Ctx) (full []param) {
 		// quick sub-grid: deepest splitting (2,1), (16,4), a non-power-of-two factor (3,2) and the clamped (0,0)
 		return []param{{2, 1}, {16, 4}, {3, 2}, {0, 0}}
 	}
-	for _, df := range []int{2, 3, 16, 0} {
-		for _, thr := range []int{1, 2, 4, 0} {
+	// proper values first, production values, then the pairs with a clamped value (0 => 2 / 0 => 1)
+	for _, df := range []int{2, 3, 16} {
+		for _, thr := range []int{1, 2, 4} {
 			full = append(full, param{df, thr})
 		}
 	}
 	full = append(full, param{32, 256})
+	for _, df := range []int{2, 3, 16, 0} {
+		for _, thr := range []int{1, 2, 4, 0} {
+			if df == 0 || thr == 0 {
+				full = append(full, param{df, thr})
+			}
+		}
+	}
 	return
 }
 
@@ -644,6 +691,11 @@ func jobsFor(c *vk.Ctx, p param) (jobs []job) {
 		default: // (0,0) behaves as (2,1): only the clamping is of interest
 			return []job{{F, F, trInproc, 3}, {U, R, trInproc, 9}, {F, F, trHs, 27}, {F, F, trKv, 27}}
 		}
+	}
+	if p.Df == 0 || p.Thr == 0 {
+		// a clamped value behaves as its clamp target (which is enumerated in full): three history combinations in
+		// process and both wire adapters, all pairs
+		return []job{{F, F, trInproc, 0}, {U, R, trInproc, 0}, {R, U, trInproc, 0}, {F, F, trHs, 0}, {F, F, trKv, 0}}
 	}
 	for lm := 0; lm < 3; lm++ {
 		for rm := 0; rm < 3; rm++ {
@@ -674,11 +726,6 @@ var ballast []byte
 
 func body(c *vk.Ctx) {
 	ballast = make([]byte, 512<<20)
-	if pf := os.Getenv("C07_PROF"); pf != "" {
-		f, _ := os.Create(pf)
-		pprof.StartCPUProfile(f)
-		defer pprof.StopCPUProfile()
-	}
 	c.Require(ldu.SharedPrefix(ldu.Triple...) >= 36 && ldu.SharedPrefix(ldu.Pair...) >= 51, "id universe lost its hash-prefix collisions")
 	if c.Replay != "" {
 		replay(c)
@@ -701,13 +748,21 @@ func body(c *vk.Ctx) {
 		c.Bound("quick_subgrid", plan)
 		c.Bound("subset_definition", "subset 1/n = pairs (l,r) of content codes with both sides non-empty, l != r and (l+7r) mod n == 0; both variants on every selected pair")
 	} else {
-		c.Bound("thorough_grid", "every parameter pair: "+describeJobs(params[0], jobsFor(c, params[0])))
+		c.Bound("thorough_grid", map[string]string{
+			"divideFactor in {2,3,16} x threshold in {1,2,4}, and (32,256)": describeJobs(params[0], jobsFor(c, params[0])),
+			"pairs with a clamped 0": describeJobs(param{0, 0}, jobsFor(c, param{0, 0})),
+		})
 	}
 	rb := map[string]int{}
 	for _, p := range params {
 		rb[fmt.Sprintf("df=%d", p.effDf())] = roundsBound(p)
 	}
 	c.Bound("rounds_bound", rb)
+
+	// the fixed large cases first (seconds), so that a deadline can never skip them
+	t0 := time.Now()
+	r.largeCases()
+	fmt.Fprintf(os.Stderr, "c07: large cases in %v\n", time.Since(t0).Round(time.Millisecond))
 
 	stopped := false
 	for pi, p := range params {
@@ -727,23 +782,19 @@ func body(c *vk.Ctx) {
 	if stopped {
 		c.NotExhaustive("deadline reached before all parameter pairs were enumerated")
 	}
-	if !stopped {
-		t0 := time.Now()
-		r.largeCases()
-		fmt.Fprintf(os.Stderr, "c07: large cases in %v\n", time.Since(t0).Round(time.Millisecond))
-	}
 
 	r.flushViolations()
 	c.Bound("rounds_max", r.maxByDf)
 	if r.st.maxCase != nil {
 		c.Sample(map[string]any{"what": "diff with the most Ranges rounds", "rounds": r.st.maxRounds, "case": r.st.maxCase})
 	}
-	if r.st.allFourCase != nil {
-		c.Sample(map[string]any{"what": "all four result lists non-empty", "case": r.st.allFourCase})
+	if r.st.fourCase != nil {
+		c.Sample(map[string]any{"what": "all four result lists non-empty", "case": r.st.fourCase})
 	}
-	if r.nViol.Load() == 0 {
-		c.Require(r.st.maxRounds >= 30, "vacuity: no diff needed >= 30 rounds (max %d): deep splitting did not happen", r.st.maxRounds)
-		c.Require(r.st.allFourCase != nil, "vacuity: no case with all four result lists non-empty")
+	if !stopped {
+		// a PASS must not be vacuous; when violations were found the depth reached by a broken recursion is no harness matter
+		c.Require(r.st.maxRounds >= 30 || r.nViol.Load() > 0, "vacuity: no diff needed >= 30 rounds (max %d): deep splitting did not happen", r.st.maxRounds)
+		c.Require(r.st.fourCase != nil, "vacuity: no case with all four result lists non-empty")
 		c.Require(c.Counter("wire_requests").Load() > 0, "vacuity: the wire adapters were never used")
 	}
 }
@@ -760,6 +811,7 @@ func (r *runner) runParam(pi int, p param, jobs []job) bool {
 	}
 	var wg sync.WaitGroup
 	var next atomic.Int64
+	var buildFailed atomic.Bool
 	for w := 0; w < 16; w++ {
 		wg.Add(1)
 		go func() {
@@ -771,13 +823,22 @@ func (r *runner) runParam(pi int, p param, jobs []job) bool {
 				}
 				cont := contentsOfCode(code)
 				for m := 0; m < 3; m++ {
-					idx[m][code] = buildIndex(p, cont, m, smallExtras(cont))
-					dms[m][code] = newDM(idx[m][code])
+					if panicked, what := vk.Recover(func() {
+						idx[m][code] = buildIndex(p, cont, m, smallExtras(cont))
+						dms[m][code] = newDM(idx[m][code])
+					}); panicked {
+						buildFailed.Store(true)
+						r.violation("panic building the index", p, [6]int{len(cont), pi, 0, m, code}, fmt.Sprintf("df=%d thr=%d: building %v (history %s): %s", p.Df, p.Thr, cont, modeNames[m], what),
+							&smallCase{Kind: "small", Df: p.Df, Thr: p.Thr, Left: cont, Right: cont, LeftMode: modeNames[m], RightMode: modeNames[m], Transport: "inproc", Variant: "Diff"})
+					}
 				}
 			}
 		}()
 	}
 	wg.Wait()
+	if buildFailed.Load() {
+		return true // nothing to diff for this parameter pair: the violation is recorded
+	}
 	// sanity: the three histories hold the same contents
 	for code := 0; code < nCodes; code += 91 {
 		for m := 0; m < 3; m++ {
@@ -796,9 +857,11 @@ func (r *runner) runParam(pi int, p param, jobs []job) bool {
 		go func() {
 			defer wg.Done()
 			lk := newLink()
+			lk.lim = bound
 			seen := map[uint64]struct{}{}
 			ctx := context.Background()
-			localMax := 0
+			var ws wstats
+			defer func() { r.mergeStats(p, &ws) }()
 			for {
 				l := int(next.Add(1) - 1)
 				if l >= nCodes || timeUp.Load() {
@@ -815,7 +878,7 @@ func (r *runner) runParam(pi int, p param, jobs []job) bool {
 						LeftMode: modeNames[jb.lmode], RightMode: modeNames[jb.rmode], Transport: trNames[jb.tr], Variant: variant}
 				}
 				panicked, what := vk.Recover(func() {
-					for _, jb := range jobs {
+					for ji, jb := range jobs {
 						curJob = jb
 						local := idx[jb.lmode][l]
 						cmp := local.(ldiff.CompareDiff)
@@ -833,7 +896,9 @@ func (r *runner) runParam(pi int, p param, jobs []job) bool {
 							evals++
 							kind := ""
 							var gn, gc, gr, gt uint8
-							if err != nil {
+							if errors.Is(err, errTooManyRounds) {
+								kind = "rounds-exceeded"
+							} else if err != nil {
 								kind = "error"
 							} else {
 								var b1, b2, b3 string
@@ -859,6 +924,9 @@ func (r *runner) runParam(pi int, p param, jobs []job) bool {
 							}
 							if kind != "" {
 								cs := mkCase(jb, rr, "Diff")
+								if kind == "removed-missing" && hashlessSkip(jb.tr, local, idx[jb.rmode][rr], "Diff") {
+									kind += hashlessKey
+								}
 								r.violation("Diff "+trNames[jb.tr]+" "+kind, p, rankOf(cs, pi, l, rr),
 									fmt.Sprintf("df=%d thr=%d %s: local(%s)=%v remote(%s)=%v: Diff returned new=%v changed=%v removed=%v err=%v in %d rounds (bound %d); expected new=%v changed=%v removed=%v",
 										p.Df, p.Thr, trNames[jb.tr], modeNames[jb.lmode], cs.Left, modeNames[jb.rmode], cs.Right, nw, ch, rm, err, rounds, bound,
@@ -870,18 +938,25 @@ func (r *runner) runParam(pi int, p param, jobs []job) bool {
 									c.DistinctH("distinct", key)
 								}
 							}
-							if rounds > localMax {
-								localMax = rounds
-								r.noteRounds(p, rounds, func() *smallCase { return mkCase(jb, rr, "Diff") })
+							if rk := [6]int{pi, l, ji, rr, 0}; rounds > ws.maxRounds || rounds == ws.maxRounds && rankLess(rk, ws.maxRank) {
+								ws.maxRounds, ws.maxRank, ws.maxCase = rounds, rk, mkCase(jb, rr, "Diff")
 							}
 							// --- CompareDiff
+							if exp.nw != 0 && exp.our != 0 && exp.their != 0 && exp.rm != 0 {
+								// vacuity guard on the INPUT: all four result lists have to be non-empty for this pair
+								if rk := [6]int{pi, l, ji, rr, 1}; ws.fourCase == nil || rankLess(rk, ws.fourRank) {
+									ws.fourRank, ws.fourCase = rk, mkCase(jb, rr, "CompareDiff")
+								}
+							}
 							rem = lk.remote(jb.tr, idx[jb.rmode][rr], dms[jb.rmode][rr])
 							nw, our, their, rm, err := cmp.CompareDiff(ctx, rem)
 							rounds = rem.rounds
 							evals++
 							kind = ""
 							var go_ uint8
-							if err != nil {
+							if errors.Is(err, errTooManyRounds) {
+								kind = "rounds-exceeded"
+							} else if err != nil {
 								kind = "error"
 							} else {
 								var b1, b2, b3, b4 string
@@ -914,6 +989,9 @@ func (r *runner) runParam(pi int, p param, jobs []job) bool {
 							}
 							if kind != "" {
 								cs := mkCase(jb, rr, "CompareDiff")
+								if kind == "removed-missing" && hashlessSkip(jb.tr, local, idx[jb.rmode][rr], "CompareDiff") {
+									kind += hashlessKey
+								}
 								r.violation("CompareDiff "+trNames[jb.tr]+" "+kind, p, rankOf(cs, pi, l, rr),
 									fmt.Sprintf("df=%d thr=%d %s: local(%s)=%v remote(%s)=%v: CompareDiff returned new=%v ours=%v theirs=%v removed=%v err=%v in %d rounds (bound %d); expected new=%v ours=%v theirs=%v removed=%v",
 										p.Df, p.Thr, trNames[jb.tr], modeNames[jb.lmode], cs.Left, modeNames[jb.rmode], cs.Right, nw, our, their, rm, err, rounds, bound,
@@ -924,14 +1002,9 @@ func (r *runner) runParam(pi int, p param, jobs []job) bool {
 									seen[key] = struct{}{}
 									c.DistinctH("distinct", key)
 								}
-								if gn != 0 && go_ != 0 && gt != 0 && gr != 0 && !r.allFour.Load() {
-									r.allFour.Store(true)
-									r.noteAllFour(func() *smallCase { return mkCase(jb, rr, "CompareDiff") })
-								}
 							}
-							if rounds > localMax {
-								localMax = rounds
-								r.noteRounds(p, rounds, func() *smallCase { return mkCase(jb, rr, "CompareDiff") })
+							if rk := [6]int{pi, l, ji, rr, 1}; rounds > ws.maxRounds || rounds == ws.maxRounds && rankLess(rk, ws.maxRank) {
+								ws.maxRounds, ws.maxRank, ws.maxCase = rounds, rk, mkCase(jb, rr, "CompareDiff")
 							}
 						}
 					}
@@ -1144,6 +1217,7 @@ func brief(s []string) string {
 func checkGeneric(lk *link, p param, tr int, local, remote ldiff.Diff, lc, rc map[string]string, variant string) (kind, what string, rounds int, outcome string, allFour bool) {
 	ref := reference(lc, rc)
 	bound := roundsBound(p)
+	lk.lim = bound
 	rem := lk.remote(tr, remote, nil)
 	ctx := context.Background()
 	if variant == "Diff" {
@@ -1151,6 +1225,8 @@ func checkGeneric(lk *link, p param, tr int, local, remote ldiff.Diff, lc, rc ma
 		rounds = rem.rounds
 		sn, sc, sr := sortedCopy(nw), sortedCopy(ch), sortedCopy(rm)
 		switch {
+		case errors.Is(err, errTooManyRounds):
+			kind = "rounds-exceeded"
 		case err != nil:
 			kind = "error"
 		case hasDup(sn) || hasDup(sc) || hasDup(sr):
@@ -1173,6 +1249,8 @@ func checkGeneric(lk *link, p param, tr int, local, remote ldiff.Diff, lc, rc ma
 	rounds = rem.rounds
 	sn, so, st, sr := sortedCopy(nw), sortedCopy(our), sortedCopy(their), sortedCopy(rm)
 	switch {
+	case errors.Is(err, errTooManyRounds):
+		kind = "rounds-exceeded"
 	case err != nil:
 		kind = "error"
 	case hasDup(sn) || hasDup(so) || hasDup(st) || hasDup(sr):
@@ -1241,6 +1319,9 @@ func (r *runner) largeCases() {
 							c.Count("executions", 1)
 							c.Count("large_evaluations", 1)
 							c.Distinct("distinct", outcome)
+							if kind == "removed-wrong" && hashlessSkip(tr, a, b, variant) {
+								kind += hashlessKey
+							}
 							if kind != "" {
 								cs := &smallCase{Kind: "large", Df: u.p.Df, Thr: u.p.Thr, Large: u.lc.name, Swap: swap, Transport: trNames[tr], Variant: variant}
 								r.violation(variant+" "+trNames[tr]+" large "+kind, u.p, [6]int{len(u.lc.left) + len(u.lc.right), r.pidx(u.p), tr, b2i(swap)}, fmt.Sprintf("large case %s (swap=%v) df=%d thr=%d %s: %s", u.lc.name, swap, u.p.Df, u.p.Thr, trNames[tr], desc), cs)
